@@ -276,7 +276,12 @@ fn dryoc_mlock(data: &[u8]) -> Result<(), std::io::Error> {
         let ret = unsafe { c_mlock(data.as_ptr() as *const c_void, data.len()) };
         match ret {
             0 => Ok(()),
-            _ => Err(std::io::Error::last_os_error()),
+            _ => {
+                let err = std::io::Error::last_os_error();
+                // a failed mlock can leave (part of) the range marked as locked
+                unsafe { libc::munlock(data.as_ptr() as *const c_void, data.len()) };
+                Err(err)
+            }
         }
     }
     #[cfg(windows)]
